@@ -106,8 +106,9 @@ AssetDenoms(s) == DOMAIN s.assets
 \* K3b: the asset's share total is zero while tokens remain (every validator holding it was slashed by 100 %)
 OrphanedTotal(s, a) == a \in DOMAIN s.assets /\ IsZero(s.assets[a].vshares) /\ IsPos(s.assets[a].total)
 \* K8: validator v holds shares of asset a worth at least one token while fewer than one delegator share is recorded on it
-\* (the value was left behind by a slash of a redelegation destination or by dust clearing); new delegator shares are then
-\* issued 1:1 and the newcomer receives that value
+\* (the value was left behind by a slash of a redelegation destination or by dust clearing, or the share price has grown
+\* through slashes of other validators); tokens are then converted to delegator shares 1:1 (GetDelegationSharesFromTokens):
+\* a newcomer receives that value, and a holder withdrawing part of a position gives up all of its shares or is refused
 OrphanedOnValidator(s, v, a) ==
   /\ a \in DOMAIN s.assets
   /\ IsZero(TruncInt(Get(Info(s, v).dshares, a)))
@@ -312,8 +313,12 @@ GhostNext(gh, pre, rec, post, conforms) ==
       \* index updates of this step: (validator, alliance, reward denom) whose index grew
       upd == {<<v, k[1], k[2]>> : v \in DOMAIN post.vals \cap DOMAIN pre.vals, k \in {}} \cup
              UNION {{<<v, k[1], k[2]>> : k \in {k \in DOMAIN post.vals[v].hist : k \notin DOMAIN Info(pre, v).hist \/ Info(pre, v).hist[k] # post.vals[v].hist[k]}} : v \in DOMAIN post.vals}
+      \* the validator's tokens the increment was divided by are known only to 10^-18 of the asset's total (its share of the
+      \* asset is an 18-digit quotient): the increment times that quantum can be claimed in excess once the valuation moves
+      dIdx(u) == BSub(post.vals[u[1]].hist[<<u[2], u[3]>>], IF <<u[2], u[3]>> \in DOMAIN Info(pre, u[1]).hist THEN Info(pre, u[1]).hist[<<u[2], u[3]>>] ELSE "0")
+      quantum(u) == IF IsPos(dIdx(u)) THEN CeilDiv(BMul(dIdx(u), BMax(pre.assets[u[2]].total, IF u[2] \in DOMAIN post.assets THEN post.assets[u[2]].total ELSE "0")), BMul(ONE, ONE)) ELSE "0"
       inc(rd) == BSum({u \in upd : u[3] = rd /\ u[2] \in DOMAIN pre.assets},
-                      LAMBDA u : BQuo(BMul("4", BAdd(TruncInt(ValTokens(pre.assets[u[2]], Info(pre, u[1]), u[2])), Get(post.bank.rewards, rd))), ONE))
+                      LAMBDA u : BAdd(BQuo(BMul("4", BAdd(TruncInt(ValTokens(pre.assets[u[2]], Info(pre, u[1]), u[2])), Get(post.bank.rewards, rd))), ONE), quantum(u)))
       k22 == CoinsAdd(gh.k2, [rd \in {rd \in {u[3] : u \in upd} : ~IsZero(inc(rd))} |-> inc(rd)])
       \* K9: pending rewards of v were withdrawn in this step while v recorded no delegator shares
       strand == {v \in DOMAIN pre.env.vals : HasMod(pre, v) /\ ~IsEmptyMap(Pending(pre, v)) /\ v \in DOMAIN post.env.vals /\ IsEmptyMap(Pending(post, v))
@@ -381,6 +386,9 @@ C02_Step(pre, rec, post, gh) ==
       ELSE IF IsSlash(rec) \/ rec.ev = "StakingEndBlock" THEN {}
       ELSE Check("C02", BagOfSeq(gh.unb) = UnbBagOfState(post), "pending unbonding entries changed by " \o rec.ev)
 
+\* the callback claims rewards for the destination positions of pending redelegations before it touches them: with a short
+\* pool (K1 after a slash under existing indices, K2 rounding) that claim fails, the callback aborts and leaves the rest undone
+HookFundsKF(rec, gh) == IF rec.ev = "SlashHook" /\ ~rec.res.ok /\ rec.res.errc = "funds" THEN (IF gh.slashed THEN "K1" ELSE IF ~IsEmptyMap(gh.k2) THEN "K2" ELSE "") ELSE ""
 C07_Unb_Step(pre, rec, post, gh) ==
   IF ~(SlashValid(rec) /\ ValExists(pre, rec.args.v)) THEN {}
   ELSE
@@ -388,9 +396,9 @@ C07_Unb_Step(pre, rec, post, gh) ==
         want == SlashLedger(gh.unb, v, f, pre.now)
         cut(a) == BSum({i \in DOMAIN gh.unb : gh.unb[i].a = a}, LAMBDA i : BSub(gh.unb[i].amt, want[i].amt))
         denoms == {gh.unb[i].a : i \in DOMAIN gh.unb} \cup DOMAIN pre.bank.fee \cup DOMAIN post.bank.fee
-    IN  Check("C07", BagOfSeq(want) = UnbBagOfState(post),
+    IN  CheckK("C07", BagOfSeq(want) = UnbBagOfState(post), HookFundsKF(rec, gh),
               "slash of " \o v \o " by " \o f \o ": pending unbondings are not (each entry of that validator reduced once by floor(f*balance), all others untouched)")
-        \cup UNION {Check("C07", BSub(Get(post.bank.fee, a), Get(pre.bank.fee, a)) = cut(a),
+        \cup UNION {CheckK("C07", BSub(Get(post.bank.fee, a), Get(pre.bank.fee, a)) = cut(a), HookFundsKF(rec, gh),
                           "slash of " \o v \o ": fee collector received " \o BSub(Get(post.bank.fee, a), Get(pre.bank.fee, a)) \o " " \o a \o
                           " but the pending unbondings of that validator lose " \o cut(a)) : a \in denoms}
 
@@ -400,7 +408,7 @@ C08_Step(pre, rec, post, gh) ==
   IF ~(SlashValid(rec) /\ ValExists(pre, rec.args.v)) THEN {}
   ELSE CheckK("C08", rec.ev # "SlashHook" \/ (rec.res.ok /\ ~rec.res.panic),
               \* the callback claims rewards for the destination positions of pending redelegations: a short pool (K1, K2) makes it fail
-              IF rec.res.errc = "funds" THEN (IF gh.slashed THEN "K1" ELSE IF ~IsEmptyMap(gh.k2) THEN "K2" ELSE "") ELSE "",
+              HookFundsKF(rec, gh),
               "slash callback failed: " \o rec.res.err)
        \cup Check("C08", post.flag, "slash callback did not schedule a rebalance")
 
@@ -482,7 +490,10 @@ C07_Red_Step(pre, rec, post, gh) ==
         tol(k) == BMul(BFromInt(Cardinality(hit)), TolMax(pre, post, k[2], k[3], want(k)))
     IN  UNION {Check("C07", k \notin DOMAIN post.dels \/ post.dels[k].shares = pre.dels[k].shares,
                      "slash of " \o v \o " changed the shares of position " \o ToString(k) \o ", which is not the destination of a pending redelegation out of it") : k \in others}
-        \cup UNION {CheckK("C07", RLe(errTok(k), RInt(tol(k))), IF MergedRecord(gh, k) THEN "K4" ELSE "",
+        \cup UNION {CheckK("C07", RLe(errTok(k), RInt(tol(k))),
+                           \* K3b: with the asset's share total at zero the destination's stake has no price (the code values every
+                           \* position at the whole staked total), so "shares worth floor(f*redelegated)" is whatever that yields
+                           IF MergedRecord(gh, k) THEN "K4" ELSE IF OrphanedTotal(pre, k[3]) THEN "K3b" ELSE HookFundsKF(rec, gh),
                            "slash of " \o v \o " by " \o f \o ": destination position " \o ToString(k) \o " did not lose the shares worth floor(f*redelegated) = " \o want(k) \o
                            " (capped at what it holds) per pending entry") : k \in live}
 
@@ -509,7 +520,7 @@ C04_Step(pre, rec, post) ==
                  "a reward claim changed a staked value")
       ELSE IF a \notin DOMAIN pre.assets \/ a \notin DOMAIN post.assets THEN {}
       ELSE LET kf == IF OrphanedTotal(pre, a) \/ OrphanedTotal(post, a) THEN "K3b"
-                     ELSE IF \E k \in actorKeys : delta(k) = e.x /\ OrphanedOnValidator(pre, k[2], a) THEN "K8"
+                     ELSE IF \E k \in actorKeys : OrphanedOnValidator(pre, k[2], a) THEN "K8"
                      ELSE "" IN
            UNION {
              IF k \in actorKeys
@@ -564,8 +575,7 @@ K2Resolution(s, rd) ==
                       \* and the validator's own tokens are known only to 10^-18 of the asset's total (its share of the asset is an
                       \* 18-digit quotient): a validator holding a few 10^-18 of an asset is valued in steps of total/10^18 tokens,
                       \* and the value at the time of the claim need not be the value the reward was indexed with
-                      q2 == CeilDiv(s.assets[k[3]].total, ONE)
-                  IN  IF IsPos(out) THEN CeilDiv(BMul(BAdd(q, q2), out), ONE) ELSE "0")
+                  IN  IF IsPos(out) THEN BAdd(CeilDiv(BMul(q, out), ONE), CeilDiv(BMul(out, s.assets[k[3]].total), BMul(ONE, ONE))) ELSE "0")
 PoolExplained(s, rec, gh) ==
   IF gh.slashed THEN "K1"
   ELSE IF \A rd \in DOMAIN s.bank.rewards \cup DOMAIN gh.k2 \cup UNION {{p.paid[i].a : i \in DOMAIN p.paid} : p \in ClaimProbes(rec)}
